@@ -93,8 +93,9 @@ class StarFinder(StarFinderBase):
         self.peakmax = peakmax
 
     def _get_raw_catalog(self, data, *, mask=None):
-        kernel = self.kernel
-        kernel /= np.max(kernel)  # normalize max value to 1.0
+        # normalize max value to 1.0 (into a new float array: the input
+        # kernel is not modified and may have an integer dtype)
+        kernel = self.kernel / np.max(self.kernel)
         denom = np.sum(kernel**2) - (np.sum(kernel)**2 / kernel.size)
         if denom > 0:
             kernel = (kernel - np.sum(kernel) / kernel.size) / denom
